@@ -9,6 +9,8 @@ package main
 import (
 	"context"
 	"fmt"
+	"io"
+	"net/http"
 	"net/http/httptest"
 	"os"
 	"path/filepath"
@@ -108,6 +110,10 @@ func c19content(kind string, v int) string {
 	case "parse-error":
 		return c19typesBroken + c19typed(v) + fmt.Sprintf("@ GET /v {\n  $ base = %d\n  > {version: base, doubled: base * \n", v)
 	case "semantic-error":
+		if v%3 == 0 {
+			// every route compiles, but two WebSocket routes claim one path
+			return c19valid(v) + "@ ws /chat {\n  on connect {\n    ws.join(\"lobby\")\n  }\n}\n\n@ ws /chat {\n  on message {\n    ws.broadcast(input)\n  }\n}\n"
+		}
 		return c19typesBroken + c19typed(v) + fmt.Sprintf("@ GET /v {\n  $ base = %d\n  $ base = %d\n  > {version: base}\n}\n", v, v+1)
 	case "empty":
 		return ""
@@ -181,16 +187,50 @@ func c19genEdits(s *sim.Sim, n int) []c19edit {
 }
 
 // c19fresh: what a fresh start of the given content answers on /v (nil if it does not load).
+// It is loaded the way the dev server loads a file (buildDevServer: read, parse, setupRoutes, mount
+// on a mux), on a manager of its own that never listens; a content whose loading panics does not load.
 func c19fresh(content string, exists bool) *simResp {
 	if !exists {
 		return nil
 	}
-	sv, err := simBuildServer(content, false)
+	dir, err := os.MkdirTemp("", "c19fresh-")
 	if err != nil {
 		return nil
 	}
-	r := sv.do(simReq{path: "/v", remote: "10.0.0.9:9"})
-	t := sv.do(simReq{method: "POST", path: "/t", remote: "10.0.0.9:9", body: c19typedBody})
+	defer os.RemoveAll(dir)
+	file := filepath.Join(dir, "main.glyph")
+	os.WriteFile(file, []byte(content), 0o644)
+	var srv *http.Server
+	func() {
+		defer func() {
+			if recover() != nil {
+				srv = nil
+			}
+		}()
+		m := &hotReloadManager{filePath: file, port: 18999, liveReloadConns: make(map[*liveReloadConn]bool)}
+		if sv, _, err := m.buildDevServer(); err == nil {
+			srv = sv
+		}
+	}()
+	if srv == nil {
+		return nil
+	}
+	do := func(method, path, body string) simResp {
+		var rd io.Reader
+		if body != "" {
+			rd = strings.NewReader(body)
+		}
+		req := httptest.NewRequest(method, path, rd)
+		req.RemoteAddr = "10.0.0.9:9"
+		if body != "" {
+			req.Header.Set("Content-Type", "application/json")
+		}
+		rec := httptest.NewRecorder()
+		srv.Handler.ServeHTTP(rec, req)
+		return simResp{status: rec.Code, body: rec.Body.String()}
+	}
+	r := do("GET", "/v", "")
+	t := do("POST", "/t", c19typedBody)
 	r.body = r.body + " | POST /t -> " + fmt.Sprint(t.status) + " " + t.body
 	return &r
 }
